@@ -478,11 +478,13 @@ theorem inv_afterConnect (cfg : Cfg) (s : St) (h : Inv s) (hp : s.pc = .connecti
   have hq : Who.R ∉ s1.poolQ := fun hm => by have := p5 hm; simp_all
   split
   · constructor <;> simp_all [core, activePc, Pc.isDone]
-  · apply Inv.of_core (s := { s1 with tr := .open, slot := .proto, pc := .headers })
-    · have := core_reschedRead cfg { s1 with tr := .open, slot := .proto }
-      simp only [core, Core.mk.injEq] at this ⊢
-      simp_all
+  · split
     · constructor <;> simp_all [core, activePc, Pc.isDone]
+    · apply Inv.of_core (s := { s1 with tr := .open, slot := .proto, pc := .headers })
+      · have := core_reschedRead cfg { s1 with tr := .open, slot := .proto, reqSent := true }
+        simp only [core, Core.mk.injEq] at this ⊢
+        simp_all
+      · constructor <;> simp_all [core, activePc, Pc.isDone]
 
 theorem inv_resumeR (cfg : Cfg) (s : St) (h : Inv s) : Inv (resumeR cfg s) := by
   unfold resumeR
@@ -570,6 +572,22 @@ theorem inv_eofMono (s : St) (b : Bool) (n : Nat) (hd : Bool) (h : Inv s) :
 
 theorem inv_setWake (s : St) (w : Option Wake) (h : Inv s) : Inv { s with wake := w } := Inv.of_core rfl h
 
+theorem inv_interimStep (cfg : Cfg) (s : St) (h : Inv s) : Inv (interimStep cfg s) := by
+  unfold interimStep
+  simp only []
+  have h1 : Inv (if (Gen.C18.interimKeepsTimerWhenSent && s.reqSent) = true then s else dropRead s) := by
+    split
+    · exact h
+    · exact Inv.of_core (core_dropRead s) h
+  generalize (if (Gen.C18.interimKeepsTimerWhenSent && s.reqSent) = true then s else dropRead s) = s1 at *
+  split
+  · split
+    · exact Inv.of_core rfl h1
+    · apply Inv.of_core (core_reschedRead cfg _)
+      obtain ⟨p1, p2, p3, p4, p5, p6, p7⟩ := h1
+      constructor <;> simp_all [core, activePc, Pc.isDone]
+  · exact h1
+
 theorem inv_deliver (cfg : Cfg) (s : St) (p : Piece) (h : Inv s) : Inv (deliver cfg s p) := by
   unfold deliver
   split
@@ -590,7 +608,9 @@ theorem inv_deliver (cfg : Cfg) (s : St) (p : Piece) (h : Inv s) : Inv (deliver 
       generalize (if p.n > 0 then reschedRead cfg s else s) = s1 at *
       split
       · split
-        · exact h1
+        · split
+          · exact inv_interimStep cfg s1 h1
+          · exact h1
         · have h2 := inv_eofMono s1 p.eof (s1.buffered + p.bodyBytes) true h1
           have h3 : Inv (if p.eof = true then dropRead { s1 with headDone := true, buffered := s1.buffered + p.bodyBytes, eof := s1.eof || p.eof }
                         else pauseCheck cfg { s1 with headDone := true, buffered := s1.buffered + p.bodyBytes, eof := s1.eof || p.eof }) := by
